@@ -550,17 +550,20 @@ def run(ctx):
     else:
         proof_ok, log = ctx.prove(["Bee2V.C03.Props"], PROPS)
     cfgs = ["asan", "w32"]
-    if ctx.tier == "thorough":
-        cfgs += ["bash32", "sse2"]
-        flags = open("/proc/cpuinfo").read()
-        if " avx2 " in flags:
-            cfgs.append("avx2")
-        else:
-            ctx.notes.append("cfg avx2 skipped: CPU has no avx2")
-        if " avx512f " in flags:
-            cfgs.append("avx512")
-        else:
-            ctx.notes.append("cfg avx512 skipped: CPU has no avx512f")
+    # alternative bash-f implementations (bash_f32.c, SSE2, AVX2, AVX-512): not modelled, compared with the
+    # same Lean driver; quick tier: bash-f / hash / automaton ops only
+    fcfgs = ["bash32", "sse2"]
+    flags = open("/proc/cpuinfo").read()
+    if " avx2 " in flags:
+        fcfgs.append("avx2")
+    else:
+        ctx.notes.append("cfg avx2 skipped (not passed): CPU has no avx2")
+    if " avx512f " in flags:
+        fcfgs.append("avx512")
+    else:
+        ctx.notes.append("cfg avx512 skipped (not passed): CPU has no avx512f")
+    ctx.notes.append("cfg neon skipped (not passed): not an ARM host")
+    cfgs += fcfgs
     ops = corpus_lines() + gen_bashf(ctx) + gen_hash(ctx) + gen_prg(ctx) + gen_ctr(ctx) + gen_hmacgen(ctx) + gen_botp(ctx) + gen_belt(ctx)
     kinds = {}
     for o in ops:
@@ -569,19 +572,36 @@ def run(ctx):
     ctx.cov["configs"] = cfgs
     all_mism, distinct = [], set()
     have_driver = (not translator_error) and os.path.exists(ctx.driver())
+    f_ops = [o for o in ops if o.split()[0] in ("bashf", "hash", "prg")]
     for cfg in cfgs:
         exe = ctx.cc("harness/c03.c", cfg)
+        cfg_ops = f_ops if (cfg in fcfgs and ctx.tier == "quick") else ops
         if have_driver:
             try:
-                mism, c_out, l_out = ctx.diff_run(exe, ops, cfg)
+                mism, c_out, l_out = ctx.diff_run(exe, cfg_ops, cfg)
             except RuntimeError as e:
                 ctx.notes.append(str(e)[:300])
                 mism, c_out = [(-1, "driver", "", str(e)[:300])], []
         else:
-            c_out, _, _ = ctx.run_lines(exe, ops)
+            c_out, _, _ = ctx.run_lines(exe, cfg_ops)
             mism = []
         distinct.update(c_out)
         all_mism += [(cfg, exe) + m for m in mism]
+        if have_driver and cfg == "asan" and len(c_out) == len(ops):
+            # second phase: verification with the CORRECT password (taken from the implementation's own hotp output)
+            v = []
+            for o, r in zip(ops, c_out):
+                w = o.split()
+                if w[0] == "hotp" and r != "bad-op" and len(r.split()) > 1:
+                    v.append("hotpv %s %s %s %s" % (w[1], w[2], w[3], r.split()[0].encode().hex()))
+                    v.append("hotpv %s %s %s %s" % (w[1], w[2], w[3], r.split()[1].encode().hex()))   # the NEXT password: must fail
+            if v:
+                m2, c2, _ = ctx.diff_run(exe, v, "asan-hotpv")
+                all_mism += [(cfg, exe) + m for m in m2]
+                bad = [(i, v[i], c2[i]) for i in range(0, len(v), 2) if not c2[i].startswith("1 ")]
+                for i, op, got in bad[:1]:
+                    ctx.violation("botpHOTP:verify", fmt_replay("botpHOTP:verify", cfg, op, got, "1 <ctr+1>", "StepV rejects the password StepR produced"),
+                                  True, "botpHOTPStepV rejects the password that botpHOTPStepR generated: " + op)
     ctx.cov["correspondence_disagreements"] = len(all_mism)
     ctx.samples += [{"op": o[:100]} for o in ops[:3]]
     ctx.samples.append({"theorem": "Bee2V.C03.bashF0_eq_spec",
@@ -595,15 +615,46 @@ def run(ctx):
         ctx.violation(key, fmt_replay(key, cfg, op, c, l, what), found,
                       "[%s] %s\n impl : %s\n model: %s\n %s" % (cfg, op[:300], c[:300], l[:300], what))
     if not proof_ok and not all_mism:
+        # the theorems broke but model (regenerated) and implementation still agree: look for a concrete
+        # failing input with the implementation-only oracle over the generated ops
+        exe = ctx.cc("harness/c03.c", "asan")
+        c_out, _, _ = ctx.run_lines(exe, ops)
+        per_kind, hit = {}, None
+        for o, r in zip(ops, c_out):
+            k = o.split()[0]
+            if r == "bad-op" or per_kind.get(k, 0) >= (25 if k in ("prg", "ctr", "hmacgen", "hotp") else 80):
+                continue
+            per_kind[k] = per_kind.get(k, 0) + 1
+            found, key, what = search(ctx, exe, o, r)
+            if found:
+                hit = (o, r, key, what)
+                break
+        ctx.cov["oracle_ops_after_proof_failure"] = sum(per_kind.values())
+        if hit:
+            o, r, key, what = hit
+            errs = "; ".join(ctx.cov.get("lake_errors", []))[:200]
+            ctx.violation(key, fmt_replay(key, "asan", o, r, "", what), True,
+                          "theorems no longer check (%s) and the implementation violates the property:\n %s\n impl: %s\n %s" % (
+                              errs, o[:300], r[:300], what))
+            return finish(ctx, distinct)
         errs = "\n".join("# " + l for l in log.split("\n") if "error" in l)[:3000]
         ctx.violation("proof", "# property C03: the theorems of Bee2V/C03/Props.lean no longer check against the model "
                       "regenerated from the source; the correspondence run found no differing output.\n" + errs,
-                      False, "theorems no longer check: " + (translator_error or "; ".join(ctx.cov.get("lake_errors", [])))[:400])
+                      False, "theorems no longer check: " + (translator_error or "; ".join(ctx.cov.get("lake_errors", []))
+                                                              or log.strip().split("\n")[0] + " " + " | ".join(log.strip().split("\n")[1:4]))[:600])
+    return finish(ctx, distinct)
+
+
+def finish(ctx, distinct):
     return ctx.finish(
         level="proof",
         assumptions=[
             "xlate/x_c03.py reads bashF0 from the preprocessed source faithfully (validated on every run by the "
-            "correspondence of bashF with the compiled library)",
+            "correspondence of bashF with the compiled library); xlate/x_c03belt.py likewise for the belt tables",
+            "hand-written executable models of bash_hash.c, bash_prg.c, brng.c, botp.c and belt hash/HMAC agree with the code "
+            "(checked by the correspondence run on asan + w32, thorough: bash32/sse2/avx2/avx512 where available)",
+            "bash_f32.c and SIMD bash-f variants are not modelled (differential only); hash/automaton block-form spec, brng "
+            "request loop, brng HMAC, HOTP/TOTP/OCRA composition are tied by correspondence, not by theorems (see docs/C03.md)",
             "little-endian octet order (the BIG_ENDIAN branches are not modelled)"],
         rule="boundary-heavy generated ops; an op is non-trivial when its output is not constant; "
              "distinct = number of distinct implementation outputs",
@@ -614,12 +665,14 @@ def replay(ctx, path):
     cfg, op, model = "asan", None, None
     for line in open(path):
         w = line.rstrip("\n").split(" ", 1)
+        if len(w) < 2 and w[0] != "model":
+            continue
         if w[0] == "cfg":
             cfg = w[1]
         elif w[0] == "op":
             op = w[1]
         elif w[0] == "model":
-            model = w[1]
+            model = w[1] if len(w) > 1 and w[1].strip() else None
     if op is None:
         print("replay file names a theorem, not an input: nothing to execute")
         return 0
